@@ -1375,10 +1375,134 @@ Proof.
   rewrite Ma in Mb. assert (E1 : mined sa = mined sb) by congruence. assert (E2 : ida = idb) by congruence.
   split; [exact E1|]. split; [exact E2|]. split; [exact Ma|]. split.
   - exact (m_connect_block_is_model _ _ _ _ _ _ _ Ma).
-  - intros Hin. unfold p_connect_block in Ha.
+  - intros Hin. clear E1 E2 Mb Ma Hb. unfold p_connect_block in Ha.
     destruct (filter_block_txs own (credits (ps_w s1)) (lookup_pending n (ps_unmined s1)) [] (b_txs b)) as [recs|e]; [|discriminate].
     destruct (p_apply_recs p own (b_height b) (b_id b) s1 recs) as [s2|e] eqn:E; [|discriminate].
     inversion Ha; subst sa ida. cbn [ps_unmined set_w].
     apply in_map_iff in Hin. destruct Hin as [r [Hr1 Hr2]]. rewrite <- Hr1.
     exact (proj2 (p_apply_recs_settles _ _ _ _ _ _ _ E) r Hr2).
+Qed.
+
+(* ================================================================ rollback: back into the pending set, readable *)
+
+Lemma um_get_put : forall l h v h', um_get (um_put l h v) h' = if (h =? h')%N then Some v else um_get l h'.
+Proof.
+  intros l h v h'. unfold um_put. unfold um_get at 1. cbn [find fst snd].
+  destruct (h =? h')%N eqn:E; [reflexivity|].
+  change (match find (fun e => (fst e =? h')%N) (um_del l h) with Some e => Some (snd e) | None => None end) with (um_get (um_del l h) h').
+  rewrite um_get_del, E. reflexivity.
+Qed.
+
+Lemma fold_append_member :
+  forall (h : N) ins ui o sp, In sp (ui_get ui o) -> In sp (ui_get (fold_left (fun ui k => ui_append ui k h) ins ui) o).
+Proof.
+  intros h ins. induction ins as [|k ins IH]; intros ui o sp H; cbn [fold_left]; [exact H|].
+  apply IH. rewrite ui_get_append. destruct (op_eqb k o) eqn:E; [|exact H].
+  apply op_eqb_eq in E. subst k. apply in_or_app. left. exact H.
+Qed.
+
+Lemma fold_append_registers :
+  forall (h : N) ins ui o, In o ins -> In h (ui_get (fold_left (fun ui k => ui_append ui k h) ins ui) o).
+Proof.
+  intros h ins. induction ins as [|k ins IH]; intros ui o Ho; [destruct Ho|]. cbn [fold_left].
+  destruct Ho as [->|Ho]; [|apply IH; exact Ho].
+  apply fold_append_member. rewrite ui_get_append, op_eqb_refl. apply in_or_app. right. left. reflexivity.
+Qed.
+
+(* one step of the move-back loop: what it does to the unmined bucket and to the registrations *)
+Lemma rollback_tx_effect :
+  forall a3fix cs h bid s ops t s' ops',
+    rollback_tx a3fix cs h bid (POk (s, ops)) t = POk (s', ops') ->
+    (forall k, um_get (ps_unmined s') k =
+               if t_cb t then um_get (ps_unmined s) k
+               else if (t_id t =? k)%N then Some (pending_value_of_rolled_back a3fix t) else um_get (ps_unmined s) k) /\
+    (forall o sp, In sp (ui_get (ps_uinputs s) o) -> In sp (ui_get (ps_uinputs s') o)) /\
+    (t_cb t = false -> forall o, In o (t_ins t) -> In (t_id t) (ui_get (ps_uinputs s') o)).
+Proof.
+  intros a3fix cs h bid s ops t s' ops' H. unfold rollback_tx in H.
+  destruct (t_cb t) eqn:Ecb.
+  - inversion H; subst. repeat split; auto. discriminate.
+  - match type of H with (match unwithdraw_ins cs (ps_game ?S2) _ _ _ with _ => _ end) = _ => set (s2 := S2) in * end.
+    destruct (unwithdraw_ins cs (ps_game s2) (t_id t) h (map N.of_nat (seq 0 (length (t_ins t))))) as [g|e]; [|discriminate].
+    inversion H; subst s' ops'.
+    destruct (rollback_credit_fold_frame h (credits_at cs (t_id t) h bid) (set_game s2 g)) as (A & _ & C & _).
+    cbv zeta in A, C. cbn [fst].
+    match goal with |- context [ps_unmined ?X] =>
+      assert (C' : ps_unmined X = ps_unmined (set_game s2 g)) by exact C;
+      assert (A' : ps_uinputs X = ps_uinputs (set_game s2 g)) by exact A end.
+    rewrite A', C'. cbn [ps_unmined ps_uinputs set_game set_uinputs set_unmined s2]. repeat split.
+    + intros k. rewrite um_get_put. reflexivity.
+    + intros o sp Hsp. apply fold_append_member. exact Hsp.
+    + intros _ o Ho. apply fold_append_registers. exact Ho.
+Qed.
+
+Theorem rollback_move_back :
+  forall a3fix cs s r s' ops,
+    NoDup (map t_id (br_txs r)) ->
+    rollback_move a3fix cs s r = POk (s', ops) ->
+    forall t, In t (br_txs r) -> t_cb t = false ->
+      um_get (ps_unmined s') (t_id t) = Some (pending_value_of_rolled_back a3fix t) /\
+      forall o, In o (t_ins t) -> In (t_id t) (ui_get (ps_uinputs s') o).
+Proof.
+  intros a3fix cs s r s' ops Hnd H. unfold rollback_move in H.
+  assert (Hnd' : NoDup (map t_id (rev (br_txs r)))) by (rewrite map_rev; apply NoDup_rev; exact Hnd).
+  assert (G : forall txs s0 ops0 s1 ops1, NoDup (map t_id txs) ->
+            fold_left (rollback_tx a3fix cs (br_height r) (br_bid r)) txs (POk (s0, ops0)) = POk (s1, ops1) ->
+            (forall t, In t txs -> t_cb t = false ->
+               um_get (ps_unmined s1) (t_id t) = Some (pending_value_of_rolled_back a3fix t) /\
+               forall o, In o (t_ins t) -> In (t_id t) (ui_get (ps_uinputs s1) o)) /\
+            (forall k, ~ In k (map t_id txs) -> um_get (ps_unmined s1) k = um_get (ps_unmined s0) k) /\
+            (forall o sp, In sp (ui_get (ps_uinputs s0) o) -> In sp (ui_get (ps_uinputs s1) o))).
+  { induction txs as [|t txs IH]; intros s0 ops0 s1 ops1 Hn Hf; cbn [fold_left] in Hf.
+    - inversion Hf; subst. split; [intros t0 []|split; auto].
+    - destruct (rollback_tx a3fix cs (br_height r) (br_bid r) (POk (s0, ops0)) t) as [[sm opsm]|e] eqn:E.
+      + destruct (rollback_tx_effect _ _ _ _ _ _ _ _ _ E) as (U & M & R).
+        inversion Hn as [|x l Hx Hl]; subst.
+        destruct (IH sm opsm s1 ops1 Hl Hf) as (I1 & I2 & I3). split; [|split].
+        * intros t0 H0 H1. destruct H0 as [<-|H0]; [|exact (I1 t0 H0 H1)]. split.
+          -- rewrite (I2 (t_id t) Hx), U, H1, N.eqb_refl. reflexivity.
+          -- intros o Ho. apply I3. apply R; assumption.
+        * intros k Hk. rewrite I2 by (intros Hin; apply Hk; right; exact Hin). rewrite U.
+          destruct (t_cb t); [reflexivity|]. destruct (t_id t =? k)%N eqn:Ek; [|reflexivity].
+          apply N.eqb_eq in Ek. exfalso. apply Hk. left. exact Ek.
+        * intros o sp Hsp. apply I3. apply M. exact Hsp.
+      + exfalso. clear -Hf. induction txs as [|t' txs IHt]; cbn in Hf; [discriminate|]. apply IHt. exact Hf. }
+  intros t Ht Hcb. destruct (G _ _ _ _ _ Hnd' H) as (G1 & _ & _). apply G1; [apply -> in_rev; exact Ht|exact Hcb].
+Qed.
+
+(* C09, readable after rollback (the repaired code): every non-coinbase transaction of the rolled-back
+   block record is in the pending set as the transaction itself, with all its inputs registered *)
+Theorem rollback_readable :
+  forall cs s r s' ops,
+    NoDup (map t_id (br_txs r)) ->
+    rollback_move true cs s r = POk (s', ops) ->
+    forall t, In t (br_txs r) -> t_cb t = false ->
+      read_unmined s' (t_id t) = RdOk t /\ forall o, In o (t_ins t) -> In (t_id t) (ui_get (ps_uinputs s') o).
+Proof.
+  intros cs s r s' ops Hnd H t Ht Hcb.
+  destruct (rollback_move_back true cs s r s' ops Hnd H t Ht Hcb) as [U R]. split; [|exact R].
+  unfold read_unmined. rewrite U. reflexivity.
+Qed.
+
+(* the code as first found stored the 28-byte location: nothing of the block can be read back *)
+Theorem rollback_unreadable_unfixed :
+  forall cs s r s' ops,
+    NoDup (map t_id (br_txs r)) ->
+    rollback_move false cs s r = POk (s', ops) ->
+    forall t, In t (br_txs r) -> t_cb t = false -> read_unmined s' (t_id t) = RdBad.
+Proof.
+  intros cs s r s' ops Hnd H t Ht Hcb.
+  destruct (rollback_move_back false cs s r s' ops Hnd H t Ht Hcb) as [U _].
+  unfold read_unmined. rewrite U. reflexivity.
+Qed.
+
+Theorem rollback_readable_unfixed_refuted :
+  exists cs s r s' ops t,
+    rollback_move false cs s r = POk (s', ops) /\ In t (br_txs r) /\ t_cb t = false /\
+    read_unmined s' (t_id t) <> RdOk t.
+Proof.
+  pose (t := {| t_id := 7%N; t_cb := false; t_ins := [(1%N, 0%N)]; t_outs := [ {| o_sh := 1%N; o_val := 5; o_class := CStd |} ] |}).
+  exists [], (init_pstate 0%N), {| br_height := 3; br_bid := 3%N; br_txs := [t] |}.
+  eexists. eexists. exists t. split; [vm_compute; reflexivity|]. split; [left; reflexivity|]. split; [reflexivity|].
+  vm_compute. discriminate.
 Qed.
